@@ -457,6 +457,18 @@ def build(P):
                 "\n".join([head, "READFILE \"k.txt\", fresh", "OUTPUT \"in [\", fresh, \"]\"", tail, "OPENFILE \"k.txt\" FOR READ", call, "OUTPUT fresh"]),
                 "\n".join([head, "OPENFILE \"k.txt\" FOR APPEND", "WRITEFILE \"k.txt\", \"from routine\"", "CLOSEFILE \"k.txt\"", tail, call, "OPENFILE \"k.txt\" FOR READ", "WHILE NOT EOF(\"k.txt\")", "READFILE \"k.txt\", x", "OUTPUT x", "ENDWHILE"]),
             ]
+        # several files open at once, closed in every order (a close must close exactly its own file)
+        for order in [("s", "d"), ("d", "s")]:
+            cl = {"s": "CLOSEFILE \"k.txt\"", "d": "CLOSEFILE \"out.txt\""}
+            shapes.append("\n".join(["OPENFILE \"k.txt\" FOR READ", "OPENFILE \"out.txt\" FOR WRITE", "WHILE NOT EOF(\"k.txt\")", "READFILE \"k.txt\", x", "WRITEFILE \"out.txt\", x", "ENDWHILE", cl[order[0]], "OUTPUT \"first closed\""] +
+                                    (["WRITEFILE \"out.txt\", \"tail\""] if order[0] == "s" else ["OUTPUT EOF(\"k.txt\")"]) + [cl[order[1]], "OPENFILE \"out.txt\" FOR READ", "WHILE NOT EOF(\"out.txt\")", "READFILE \"out.txt\", y", "OUTPUT \"[\", y, \"]\"", "ENDWHILE"]))
+            shapes.append("\n".join(["OPENFILE \"out.txt\" FOR WRITE", "OPENFILE \"k.txt\" FOR READ", "READFILE \"k.txt\", x", "WRITEFILE \"out.txt\", x", cl[order[0]], "OUTPUT \"first closed\""] +
+                                    (["WRITEFILE \"out.txt\", \"tail\""] if order[0] == "s" else ["READFILE \"k.txt\", x", "OUTPUT x"]) + [cl[order[1]], "OPENFILE \"out.txt\" FOR READ", "WHILE NOT EOF(\"out.txt\")", "READFILE \"out.txt\", y", "OUTPUT \"[\", y, \"]\"", "ENDWHILE"]))
+        for perm in itertools.permutations(["a1.txt", "a2.txt", "a3.txt"]):
+            L = ["OPENFILE \"a1.txt\" FOR WRITE", "OPENFILE \"a2.txt\" FOR WRITE", "OPENFILE \"a3.txt\" FOR WRITE"]
+            for k_, f_ in enumerate(perm):
+                L += ["WRITEFILE \"a1.txt\", \"w%d\"" % k_, "WRITEFILE \"a2.txt\", \"w%d\"" % k_, "WRITEFILE \"a3.txt\", \"w%d\"" % k_, "CLOSEFILE \"%s\"" % f_, "OUTPUT \"closed %s\"" % f_]
+            shapes.append("\n".join(L))
         shapes += [
             "DECLARE line : STRING\nPROCEDURE Rd(BYREF into : STRING)\nREADFILE \"k.txt\", into\nENDPROCEDURE\nOPENFILE \"k.txt\" FOR READ\nWHILE NOT EOF(\"k.txt\")\nCALL Rd(line)\nOUTPUT \"[\", line, \"]\"\nENDWHILE",
             "DECLARE line : STRING\nline <- \"kept\"\nPROCEDURE Rd(into : STRING)\nREADFILE \"k.txt\", into\nOUTPUT \"in [\", into, \"]\"\nENDPROCEDURE\nOPENFILE \"k.txt\" FOR READ\nCALL Rd(line)\nOUTPUT \"[\", line, \"]\"",
